@@ -238,7 +238,7 @@ static int fault_next(size_t *limit) {
     int k = fcall++;
     if (2 * k + 1 < fsched_n) {
         long kind = fsched[2 * k], v = fsched[2 * k + 1];
-        if (kind == 1 && v >= 0 && (size_t) v < *limit) *limit = (size_t) v;
+        if (kind == 1 && v >= 1 && (size_t) v < *limit) *limit = (size_t) v;      /* never 0: that would be an EOF, not a short read */
         if (kind == 2 && v >= 1 && v <= 4) {
             int e = fault_errnos[v];
             if (e == EINTR) f_hit_eintr = 1; else f_hit_hard = 1;
